@@ -145,3 +145,20 @@ class _cleanup_temp(Contract):
     @staticmethod
     def ensures(c):
         return [("temp_empty", l_len(c.self.t["temp"].t) == 0)]
+
+
+@contract(_SQ + "_serialize_point")
+class _serialize_point(Contract):
+    """the item decodes to the point (C05 for CSVStorage; identity for MemoryStorage)"""
+    params = dict(self=STG, point=MP, compact_key_prefixes=TBool)
+    defaults = dict(compact_key_prefixes=lambda ex: mk_bool(False))
+    ret = Item
+    assumed = True
+
+    @staticmethod
+    def requires(c):
+        return [("time_is_set", o_is_some(c.point.t["_time"].t))]
+
+    @staticmethod
+    def ensures(c):
+        return [("decodes_to_point", dec(c.result.t) == pt_of(c.point))]
